@@ -7,7 +7,7 @@ import Rl4co.Env.Mdcpdp
 namespace Rl4co.Mdcpdp
 
 /-- well-formed instance: the consistent configuration (`capacity` has one entry per depot, as many
-depots as the generator parameters say), at least one depot, an even number of customers, and a
+depots as the generator parameters say, start_mode "order"), at least one depot, an even number of customers, and a
 vehicle of depot 0 that can carry at least one order -/
 structure WF (i : Inst) : Prop where
   kpos  : 1 ≤ i.K
@@ -15,6 +15,7 @@ structure WF (i : Inst) : Prop where
   split : i.split0 = i.h + i.K
   kg    : i.KG = i.K
   cap0  : 1 ≤ i.cap 0
+  start0 : i.start = 0
 
 /-- the operators the theorems need (obligations on the extracted parameters) -/
 @[simp] theorem capFlagOf_eq (i : Inst) (c : Int) (d : Nat) : capFlagOf i c d = decide (c ≥ i.cap d) := by
@@ -86,7 +87,7 @@ theorem onb_all_true (i : Inst) (av : Nat → Bool) (h : ∀ j, av j = true) : o
   simp [h]
 
 theorem inv_reset (i : Inst) (hwf : WF i) : Inv i (reset i) := by
-  refine ⟨rfl, ?_, ?_, ?_, ?_, ?_, ?_, Or.inl ⟨rfl, fun _ => rfl⟩⟩
+  refine ⟨hwf.start0, ?_, ?_, ?_, ?_, ?_, ?_, Or.inl ⟨rfl, fun _ => rfl⟩⟩
   · intro j hj; simp [reset, hwf.split]; omega
   · intro p h1 h2
     have := hwf.even
